@@ -34,7 +34,9 @@ CODES = {
 }
 RULE = ("1..7 ballots of one of the four types over 2..6 projects, drawn from 1..3 content templates and built by "
         "different insertion histories (shuffled order, constructor vs incremental insertion, overwritten scores, "
-        "delete + re-insert, duplicates, distinct-but-equal Project objects, int/mpq/Fraction scores, empty ballots); "
+        "delete + re-insert, duplicates, distinct-but-equal Project objects, int/mpq/Fraction/float scores incl. thirds, "
+        "sevenths, scores differing only beyond the 9th decimal (1e-10..1e-15), 0.1+0.2 vs 0.3, integers beyond 2**53, "
+        "negative scores, empty ballots); "
         "multiprofile built by conversion (as_multiprofile / profile=), from frozen ballots, or incrementally by "
         "append/extend/update/second conversion, the ballots being handed over as list, tuple, generator expression, "
         "map(), iter(list) or Profile objects (built by constructor, extend or +=), with shared objects or with "
@@ -61,7 +63,20 @@ EXPLANATION = ("Theorems (unbounded, by induction over the history): a Counter k
 
 KINDS = ["app", "card", "cum", "ord"]
 KCOQ = {"app": "KApp", "card": "KCard", "cum": "KCum", "ord": "KOrd"}
-SCORES = ["0/1", "1/1", "2/1", "1/2", "3/1", "3/2", "5/1"]
+SCORES = ["0/1", "1/1", "2/1", "1/2", "3/1", "3/2", "5/1",
+          # full precision: thirds, sevenths, 9-decimal neighbours, offsets of 1e-10 .. 1e-15, integers beyond 2**53,
+          # negative scores, and two exact binary floats (0.1 + 0.2 and 0.3)
+          "1/3", "2/3", "1/7", "22/7", "333333333/1000000000", "333333334/1000000000",
+          "1000000001/10000000000", "1/1000000000000000", "-1/1", "-1/3", "-5/2",
+          "9007199254740992/1", "9007199254740993/1", "9007199254740991/1", "1152921504606846977/1",
+          "1351079888211149/4503599627370496", "5404319552844595/18014398509481984"]
+# pairs of scores that differ only far behind the decimal point (or by 1 beyond 2**53): distinct ballots
+NEAR = [("1/3", "333333333/1000000000"), ("1/3", "3333333333333333/10000000000000000"),
+        ("1/1", "1000000000001/1000000000000"), ("2/1", "2000000000000001/1000000000000000"),
+        ("1/7", "142857143/1000000000"), ("9007199254740992/1", "9007199254740993/1"),
+        ("1351079888211149/4503599627370496", "5404319552844595/18014398509481984"), ("0/1", "1/1000000000000000"), ("-1/3", "-333333333/1000000000"),
+        ("1/2", "50000000001/100000000000")]
+
 
 
 def budget(tier):
@@ -118,6 +133,12 @@ def gen_direct(rng, i, tier):
     for _ in range(rng.choice([1, 2, 2])):
         ps = rng.sample(range(nproj), rng.randrange(2, nproj + 1))
         temps.append([[p, rng.choice(SCORES) if kind in ("card", "cum") else "0/1"] for p in ps])
+    if kind in ("card", "cum") and rng.random() < 0.6:
+        a, b_ = rng.choice(NEAR)                    # two templates that differ only far behind the decimal point
+        t = [list(x) for x in temps[0]]
+        temps[0][0][1] = a
+        t[0][1] = b_
+        temps = [temps[0], t] + temps[2:]
     ballots = []
     for j in range(rng.choice([2, 3, 4, 5, 6])):
         content = list(rng.choice(temps))
@@ -130,7 +151,7 @@ def gen_direct(rng, i, tier):
             rng.shuffle(content)
         hist = [["+", p, sc] for p, sc in content]
         b = {"hist": hist, "ctor": len(hist), "name": rng.choice([j + 1, j + 1, 0]), "meta": rng.choice([0, 0, 1, 2, 3]),
-             "numrep": rng.choice(["int", "mpq", "frac"])}
+             "numrep": rng.choice(["int", "mpq", "frac", "float"])}
         if rng.random() < 0.75:
             modes = ["seq", "seq", "frozen"] + (["mutable"] if kind != "app" or FROZEN_APP_FROM_SET_OK else [])
             b["direct"] = rng.choice(modes)
@@ -186,13 +207,19 @@ def gen(rng, i, tier):
         sc = rng.choice(SCORES)
         temps.append([[p, (rng.choice(SCORES) if rng.random() < 0.7 else sc) if kind in ("card", "cum") else "0/1"]
                       for p in ps])
-    if kind in ("card", "cum", "ord") and len(temps) >= 2 and len(temps[0]) >= 2 and rng.random() < 0.4:
+    if kind in ("card", "cum", "ord") and len(temps) >= 2 and len(temps[0]) >= 2 \
+            and rng.random() < (0.4 if kind == "ord" else 0.6):
         # a near-miss template: same keys, one score changed (card) / two projects swapped (ord)
         t = [list(x) for x in temps[0]]
         if kind == "ord":
             t[0], t[1] = t[1], t[0]
         else:
-            t[0][1] = rng.choice([s for s in SCORES if s != t[0][1]])
+            if rng.random() < 0.6:
+                a, b_ = rng.choice(NEAR)            # the two templates differ only beyond the 9th decimal / by 1 ulp
+                temps[0][0][1] = a
+                t[0][1] = b_
+            else:
+                t[0][1] = rng.choice([s for s in SCORES if s != t[0][1]])
         temps[1] = t
     nb = rng.choice([1, 2, 3, 3, 4, 4, 5, 6, 7])
     ballots = []
@@ -207,7 +234,7 @@ def gen(rng, i, tier):
         ctor = rng.choice([0, nplus, rng.randrange(0, nplus + 1)])
         ballots.append({"hist": hist, "ctor": ctor,
                         "name": rng.choice([j + 1, j + 1, j + 1, 0]), "meta": rng.choice([0, 0, 1, 2, 3]),
-                        "numrep": rng.choice(["int", "mpq", "frac"])})
+                        "numrep": rng.choice(["int", "mpq", "frac", "float"])})
     # insertion history
     pool = [rng.randrange(nb) for _ in range(rng.choice([0, 1, 2, 3, 4, 5, 6, 8]))]
     if rng.random() < 0.5:
@@ -331,7 +358,7 @@ def _add_versions(rng, case):
         extra = [h + [rng.randrange(0, 20)] for h in extra]
         j = len(ballots)
         ballots.append({"hist": base["hist"] + extra, "ctor": base["ctor"], "name": base["name"], "meta": base["meta"],
-                        "numrep": rng.choice(["int", "mpq", "frac"]), "base": i, "edit_at": t})
+                        "numrep": rng.choice(["int", "mpq", "frac", "float"]), "base": i, "edit_at": t})
         # later uses of the object see the new version
         for k in range(t, len(ops)):
             op = ops[k]
